@@ -84,6 +84,10 @@ class Argument(object):
 
     @property
     def default(self):  # type: () -> Any
+        if isinstance(self._default, list):
+            # The list stays ours: callers get a list of their own
+            return list(self._default)
+
         return self._default
 
     def is_required(self):  # type: () -> bool
